@@ -529,6 +529,12 @@ def _end_to_end(ctx, keys):
               # letters outside ASCII
               'caf\u00e9', 's== caf\u00e9', '<or> \u00e9t\u00e9 <or> a',
               '<in> \u00e9', '<all-in> a\u00e9s mmx',
+              # operands with regex metacharacters are plain text
+              '<in> 4.8', '<in> a+b', '<in> (x', '<in> [a', '<in> a|b',
+              's== a.c', '<or> a.c <or> x*',
+              # zero as the value of a range test
+              '<range-in> [ -1 1 ]', '<range-in> [ 0 5 ]', '<range-in> ( -5 0 ]',
+              '<range-in> ( 0 5 )',
               # negative and decimal range limits
               '<range-in> [ -20 -10 ]', '<range-in> ( -5 5 ]',
               '<range-in> [ -1.5 4.5 )', '<range-in> [ 4 +6 ]',
@@ -537,7 +543,8 @@ def _end_to_end(ctx, keys):
               ' <range-in> [ 1 5 ] ', '<or>  a  <or>  b', ' <all-in> aes']
     values = ('5', '5.0', '6', '4', 'abc', '17', 'a', "['aes', 'mmx']",
               ' abc', '!abc', 'x!9y', '!b', 's=x', "['!x', 's=y']", 's',
-              '-15', '-5', '4.5', '-20', 'caf\u00e9', 'caf',
+              '-15', '-5', '4.5', '-20', 'caf\u00e9', 'caf', '0', '0.0',
+              '-0.0', 'gcc-4x8', 'a+b', 'f(x)', 'abc', 'aac', 'a|b', '[a]',
               "['a\u00e9s', 'mmx']", '\u00e9t\u00e9')
 
     if ctx.thorough:
